@@ -179,6 +179,52 @@ func oracleC08(e *Env, i int) *Violation {
 	return nil
 }
 
+// oracleAddSlot: where an accepted add puts its object is decided by the descriptor table alone —
+// the first slot not in use whose number (slot + 1) no live object carries, with ID slot + 1 — as
+// the reference model of C02 says, and therefore the same for the open handle and for a handle
+// obtained by loading the same bytes (C08).  preBytes: the file before the add.
+func oracleAddSlot(e *Env, preBytes []byte, prop string, i int, op *Op, res string) *Violation {
+	if op.Kind != "add" || !strings.HasPrefix(res, "res ok") || preBytes == nil || e.desync {
+		return nil
+	}
+	_, pre, err := decodeRaw(preBytes)
+	if err != nil {
+		return nil
+	}
+	inUse := map[uint32]bool{}
+	for _, d := range pre {
+		if d.Used {
+			inUse[d.ID] = true
+		}
+	}
+	want := -1
+	for k, d := range pre {
+		if !d.Used && !inUse[uint32(k)+1] {
+			want = k
+			break
+		}
+	}
+	_, post, err := decodeRaw(e.storeBytes())
+	if err != nil || len(post) != len(pre) {
+		return nil
+	}
+	got := -1
+	for k := range post {
+		if post[k].Used && (!pre[k].Used || post[k].ID != pre[k].ID || post[k].Off != pre[k].Off) {
+			got = k
+			break
+		}
+	}
+	if want >= 0 && got >= 0 && (got != want || post[got].ID != uint32(want)+1) {
+		key, why := "C02:add-slot", "the reference model puts a new object into the first usable slot, with ID slot+1"
+		if prop == "C08" {
+			key, why = "C08:add-depends-on-history", "a handle loaded from the same bytes puts it into the first usable slot, with ID slot+1"
+		}
+		return &Violation{Prop: prop, Key: key, What: fmt.Sprintf("the added object went into slot %d with ID %d; %s: slot %d, ID %d", got, post[got].ID, why, want, want+1), Op: i}
+	}
+	return nil
+}
+
 // oracleC02: invariants after every step; a rejected call leaves the view unchanged.
 func oracleC02(e *Env, st *OracleState, i int, op *Op, res string) *Violation {
 	cur := takeSnap(e.f)
@@ -382,6 +428,9 @@ func oracleC03(e *Env, st *OracleState, i int, op *Op, res string) *Violation {
 					continue
 				}
 				c, live := cur[p.ID]
+				if !live && op.Kind != "del" {
+					return &Violation{Prop: "C03", Key: "C03:bystander-lost", What: fmt.Sprintf("%s: object %d (slot %d), which the operation does not address, is no longer in the descriptor table", op.Kind, p.ID, p.Slot), Op: i}
+				}
 				if !live {
 					// deleted: with zeroing, exactly its bytes are zero and nothing else changed
 					if op.Kind == "del" && ok && op.Zero && !op.Compact {
